@@ -90,7 +90,10 @@ impl Prop for C09 {
             let t = 60u64;
             let beh = *r.pick(&["first-release", "all-released"]);
             let beh2 = *r.pick(&["first-release", "all-released"]);
-            let shape = *r.pick(&["unrelated-tap", "other-chords"]);
+            // (after-unrelated) an unrelated key is released in the very millisecond in which the
+            // first chord key goes down: the chord, complete and not part of any larger one, must still
+            // be performed when its last key arrives, not when the timeout runs out
+            let shape = *r.pick(&["unrelated-tap", "other-chords", "after-unrelated"]);
             let mut case = Case { prop: "C09".into(), seed, ..Default::default() };
             case.cfg = format!(
                 "(defcfg concurrent-tap-hold yes chords-v2-min-idle 5)\n(defsrc a b c d f)\n(deflayer l0 x y c d f)\n(defchordsv2 (a b) p {t} {beh} () {})\n",
@@ -98,8 +101,14 @@ impl Prop for C09 {
             );
             let k = |n: &str| oscode_of(n);
             let (first, second) = if r.chance(500) { (k("a"), k("b")) } else { (k("b"), k("a")) };
-            let mut ops = vec![Op::Gap(2), Op::Press(first)];
-            let g0 = r.range(0, 5) as u32;
+            let mut ops = vec![Op::Gap(2)];
+            if shape == "after-unrelated" {
+                ops.push(Op::Press(k("f")));
+                ops.push(Op::Gap(r.range(80, 300) as u32));
+                ops.push(Op::Release(k("f")));
+            }
+            ops.push(Op::Press(first));
+            let g0 = if shape == "after-unrelated" { r.range(1, 5) as u32 } else { r.range(0, 5) as u32 };
             if g0 > 0 {
                 ops.push(Op::Gap(g0));
             }
@@ -113,6 +122,9 @@ impl Prop for C09 {
                 }
                 ops.push(Op::Release(k("f")));
                 ops.push(Op::Gap(r.range(80, 150) as u32));
+            } else if shape == "after-unrelated" {
+                case.set("second_press_at", ops.iter().map(|o| if let Op::Gap(g) = o { *g as u64 } else { 0 }).sum::<u64>());
+                ops.push(Op::Gap(r.range(100, 200) as u32));
             } else {
                 ops.push(Op::Gap(t as u32 + 20));
                 for _ in 0..r.range(20, 30) {
@@ -404,6 +416,13 @@ impl Prop for C09 {
                 }
             }
             let p_down = outs.iter().find(|e| e.kind == OutKind::Press && e.key == "P").map(|e| e.t);
+            if let (Some(at), Some(pd)) = (case.param_u64("second_press_at"), p_down) {
+                // chords-v2-min-idle 5 + queue hand-over: a few ticks
+                if pd > at + 12 {
+                    o.set_fail("C09:complete-chord-performed-late", format!("the chord's last key arrived at {at}, no larger chord can still be completed, P was pressed at {pd}: {}", outs_short(&outs)), vec![]);
+                    return o;
+                }
+            }
             let p_up = outs.iter().filter(|e| e.kind == OutKind::Release && e.key == "P").map(|e| e.t).last();
             o.nontrivial = p_down.is_some();
             match (p_down, p_up) {
